@@ -32,6 +32,9 @@ type CallInfo struct {
 	Init     bool // an Init request was pushed
 	Order    int
 	Gen      int // number of completed quiescent waits when the call was started
+	// openedCh is closed when the first Opened is put on the call's stream
+	openedCh   chan struct{}
+	openedOnce bool
 	// responses the server sent on this call, in order
 	Resp []string
 	// requests pushed by the client
@@ -103,6 +106,10 @@ func (w *World) tap(label string, m any) {
 			ci.Req = append(ci.Req, desc)
 		} else {
 			ci.Resp = append(ci.Resp, desc)
+			if strings.HasPrefix(desc, "Opened(") && !ci.openedOnce && ci.openedCh != nil {
+				ci.openedOnce = true
+				close(vsync.C(ci.openedCh))
+			}
 		}
 	}
 	vsync.Logf("%s %s", label, desc)
@@ -173,9 +180,11 @@ func lastEpoch(ci *CallInfo) (uint64, bool) {
 //	noinit:<call>:<from>:<to>   open a Session call whose first request is a Send
 //	listen:<call>:<who>         open a Listen call
 //	attachs: / listens:         the same, but the client does not drain its responses (the server's Send blocks) until resume
+//	stall:<call>                the client of the call stops draining its responses again
 //	resume:<call>               the client of a stalled call starts draining
 //	cancel:<call>               cancel the call's context
 //	wait                        block until no other thread can run
+//	waitopen:<call>             block until the relay has announced Opened on the call (other scripts keep running)
 //	send:<call>:<id>            submit payload <id> signed by the caller with the last announced epoch (skipped if none)
 //	sende:<call>:<id>:<epoch>   submit with an explicit epoch
 //	sendas:<call>:<id>:<peer>   submit a message signed by another peer's key (last announced epoch)
@@ -194,7 +203,7 @@ func (w *World) Do(action string) {
 	}
 	switch f[0] {
 	case "attach", "noinit", "attachs":
-		ci := &CallInfo{Name: f[1], Kind: "session", From: f[2], To: f[3], Order: w.order, Gen: w.qgen}
+		ci := &CallInfo{Name: f[1], Kind: "session", From: f[2], To: f[3], Order: w.order, Gen: w.qgen, openedCh: make(chan struct{})}
 		w.order++
 		ci.D = sigfake.NewDuplex(context.Background(), ci.Name, w.IDs[ci.From], w.tap)
 		if f[0] == "attachs" {
@@ -223,6 +232,17 @@ func (w *World) Do(action string) {
 		// qgen changes only here, in the same step as the return from a quiescent
 		// wait (no other thread was enabled); starts read it without ordering
 		w.qgen++
+	case "waitopen":
+		// block until the relay has put an Opened on this call's stream (unlike
+		// "wait", other script threads keep running)
+		if ci := w.Call[f[1]]; ci != nil && ci.openedCh != nil {
+			<-vsync.R(ci.openedCh)
+		}
+	case "stall":
+		if ci := w.Call[f[1]]; ci != nil {
+			vsync.Logf("stall %s", ci.Name)
+			ci.D.Stall()
+		}
 	case "resume":
 		if ci := w.Call[f[1]]; ci != nil {
 			vsync.Logf("resume %s", ci.Name)
